@@ -631,4 +631,50 @@ Section Symbolic.
       rewrite V; cbn; rewrite Z.eqb_refl; cbn; rewrite (dh_comm a b); repeat split; reflexivity.
   Qed.
 
+  (* every symbolic event is the Conn.v event ev_of computes, so Conn-level theorems transfer *)
+  Theorem hstep_is_step_proof : forall e (s s' : hstate) x o,
+    hstep e s x = (s', o) -> step e (h_conn s) (ev_of s x) = (h_conn s', o).
+  Proof.
+    intros e s s' x o H. destruct x as [tm d|tm r|tm hello|x]; cbn in H |- *.
+    - apply hrecv_is_recv_proof; auto.
+    - unfold Handshake.hclient_tick in H. unfold client_tick.
+      destruct (client_update (h_conn s) tm) as [c0 o0]. cbn [fst].
+      cbn [h_conn] in H.
+      destruct (status_eqb (c_status c0) DROPPED); [inversion H; subst; reflexivity|].
+      destruct r as [|er|d].
+      + cbn in H |- *. destruct (_ >? _).
+        * destruct (build_packet e c0 tm) as [c2 pk]. destruct (check_timeout false c2 tm) as [c3 o3].
+          inversion H; subst; reflexivity.
+        * inversion H; subst; reflexivity.
+      + cbn in H |- *. inversion H; subst; reflexivity.
+      + destruct (hrecv (s <| h_conn := c0 |>) tm d) as [s1 o1] eqn:R.
+        apply hrecv_is_recv_proof in R. cbn [h_conn] in R. cbn. rewrite R.
+        destruct (raised _); [inversion H; subst; reflexivity|].
+        destruct (_ >? _).
+        * destruct (build_packet e (h_conn s1) tm) as [c2 pk]. destruct (check_timeout false c2 tm) as [c3 o3].
+          inversion H; subst; reflexivity.
+        * inversion H; subst; reflexivity.
+    - inversion H; subst; reflexivity.
+    - destruct (oracle_free x) eqn:OF.
+      + destruct (step e (h_conn s) x) as [c1 o1]. inversion H; subst; reflexivity.
+      + inversion H; subst. destruct s' as [c ? ? ? ? ? ? ?]; destruct c; reflexivity.
+  Qed.
+
+  Lemma hrun_inv e xs : forall (s : hstate), inv (h_conn s) -> inv (h_conn (fst (hrun e s xs))).
+  Proof.
+    induction xs as [|x r IH]; intros s I; cbn; [exact I|].
+    destruct (hstep e s x) as [s1 o] eqn:H.
+    pose proof (hstep_is_step_proof _ _ _ _ _ H) as E.
+    pose proof (step_inv e (h_conn s) (ev_of s x) I) as I1. rewrite E in I1. cbn in I1.
+    specialize (IH s1 I1). destruct (hrun e s1 r); exact IH.
+  Qed.
+
+  (* (4) any loss / duplication / reordering / injection: CONNECTED implies a key, both roles *)
+  Theorem handshake_never_connected_without_key_proof : forall e a b root pinned rand xs,
+    let c := h_conn (fst (hrun e (client0 SIG a pinned) xs)) in
+    let sc := h_conn (fst (hrun e (server0 SIG b root rand) xs)) in
+    (c_status c = CONNECTED -> c_key c <> None) /\ (c_status sc = CONNECTED -> c_key sc <> None).
+  Proof.
+    intros. split; apply hrun_inv; apply not_connected_inv; cbn; discriminate.
+  Qed.
 End Symbolic.
